@@ -631,6 +631,8 @@ class _KInterp(AbsInt):
         # module-qualified functions
         if ch and ch[0] in ("math", "np", "numpy", "copy", "itertools", "json", "mido", "plt", "pyplot", "logging", "warnings"):
             return self.call_library(ch, c, argk, kwk)
+        if ch and ch[-1] == "__class__" and ch[:-1] == ["self"] and self.fi.cls:
+            return self.call_ctor(c, self.fi.cls, argk, kwk)
         rk = self.ev(recv, st)
         # container / scalar methods
         maybe_repo_obj = any((isinstance(x, tuple) and x[0] == "inst") or x == "obj" for x in rk)
